@@ -146,8 +146,15 @@ def t_bu_wire(ex):
     fields["deadline"] = opt("deadline", KRef("Date"))
     fields["comment"] = opt("comment", KRef("NewComment"))
     fields["package_list"] = opt("package_list", KRef("PackageList"))
+    # list changes are records of the real class with arbitrary add / remove / replace values: both `bool(change)` and direct
+    # attribute access run the real code; only ListChange.to_wire is replaced by its contract (an opaque payload per change)
+    from pkgcore.bugzilla.changes import ListChange
+    lc_wire = {}
     for n in LISTS:
-        fields[n] = KRef("ListChange").fresh(n)
+        fields[n] = SObj(ListChange, {"add": KSeq(KStr).fresh(f"{n}_add"), "remove": KSeq(KStr).fresh(f"{n}_remove"),
+                                      "replace": Opt(z3.Bool(f"{n}_replace_is_none"), KSeq(KStr).fresh(f"{n}_replace"))})
+        lc_wire[id(fields[n])] = Wire.fresh(f"wire_of_{n}")
+    it.models[ListChange.to_wire] = lambda it_, self_: lc_wire[id(self_)]
     fields["flags"] = KSeq(KRef("FlagChange")).fresh("flags")
     upd = SObj(BugUpdate, fields)
     ids = KSeq(KInt, "list").fresh("ids")
@@ -178,7 +185,8 @@ def t_bu_wire(ex):
         if isinstance(v, Opt):
             is_set = Not(SBool(v.isnone))
         elif n in LISTS:
-            is_set = SBool(nonempty(v.t))
+            # "set": something to add, something to remove, or a replacement list given -- an empty one too (it clears the field)
+            is_set = Or(v.fields["add"].length() > 0, v.fields["remove"].length() > 0, Not(SBool(v.fields["replace"].isnone)))
         else:
             is_set = v.length() > 0
         p = present(key)
@@ -191,8 +199,7 @@ def t_bu_wire(ex):
         elif n == "deadline":
             ex.oblige(f"{P}.ensures.{key}_value", Implies(is_set, models.eq(it, got, SStr(iso(v.val.t)))))
         elif n in LISTS:
-            f = theory.ufun("wire_of_ListChange", KRef("ListChange").sort, Wire.sort)
-            ex.oblige(f"{P}.ensures.{key}_value", Implies(is_set, models.eq(it, got, Wire.wrap(f(v.t)))))
+            ex.oblige(f"{P}.ensures.{key}_value", Implies(is_set, models.eq(it, got, lc_wire[id(v)])))
         elif n == "comment":
             f = theory.ufun("wire_of_NewComment", KRef("NewComment").sort, Wire.sort)
             ex.oblige(f"{P}.ensures.{key}_value", Implies(is_set, models.eq(it, got, Wire.wrap(f(v.val.t)))))
